@@ -1,7 +1,7 @@
 /-
 Extras, part 4: C09 at frame and stream level in BITS WRITTEN. `C09_frame` bounds the reported sizes of
 the sub-frames; here every sub-frame `encode_frame` returns is shown well-formed for EVERY oracle log
-satisfying `OEvent.Ok` (no `LpcFits`: well-formedness does not depend on the residual being exact), so
+satisfying `OEvent.Ok` (no hypothesis on the LPC residual), so
 C08 turns reported sizes into written sizes, for the frame and for the whole stream.
 -/
 import FlacVerif.Lemmas.ExtrasC13
@@ -29,7 +29,7 @@ def verbatimFrame (f : Frame) (chans : List (List Int)) (bps : Nat) : Frame :=
 namespace Extras
 open Count Strict
 
-/-! ### well-formedness without `LpcFits` -/
+/-! ### well-formedness -/
 
 theorem subframe_wf (cfg : SubCfg) (xs : List Int) (bps : Nat) (log log' : List OEvent) (s : SubFrame)
     (hn : 1 ≤ xs.length) (hlen : xs.length < 2 ^ 16) (hb : 1 ≤ bps ∧ bps ≤ 25)
@@ -44,8 +44,8 @@ theorem subframe_wf (cfg : SubCfg) (xs : List Int) (bps : Nat) (log log' : List 
   · obtain ⟨coefs, shift, precision, errors, prc, hmem, hce, hsearch, rfl⟩ := hs
     obtain ⟨hc1, hc32, hp1, hp15, hs0, hs15, hcr⟩ := hlog _ (hsub _ hmem)
     obtain ⟨hel, hef⟩ := computeError_fits coefs shift.toNat xs errors hce
-    obtain ⟨hwf, _⟩ := residual_of_search errors coefs.length cfg.maxP prc hef
-      (by rw [hel]; omega) (by rw [hel]; exact hlen) hmax hsearch []
+    have hwf := residual_wf_of_search errors coefs.length cfg.maxP prc hef
+      (by rw [hel]; omega) (by rw [hel]; exact hlen) hmax hsearch
     have hwl : (xs.take coefs.length).length = coefs.length := by rw [List.length_take]; omega
     refine ⟨hc1, hc32, hwl, by rw [hwl]; rfl, hwf, ?_, hp1, hp15, hs0, hs15, hcr, hb.1, by omega,
       fun x hxm => hx x (List.mem_of_mem_take hxm)⟩
